@@ -354,22 +354,36 @@ pub fn s_rtp_marshal(run: &mut Run, t: &str) -> (String, Fails) {
         }
     }
     // the bridge fast path `marshal_into` reuses a caller buffer and must produce the same bytes
+    // — whatever the buffer held before: shorter than the packet, or (the relay reuses ONE buffer for every packet) longer,
+    // left over from a bigger packet
     let mut buf = vec![0xEEu8; 7];
     let q2 = q.clone();
     let into = match catch(move || { q2.marshal_into(&mut buf); buf }) { Ok(b) => b, Err(p) => { f.push(("panic:marshal_into".into(), p)); vec![] } };
     if let Ok(b) = &r { if *b != into { f.push(("codec:rtp:marshal_into-differs".into(), hex(&into))); } }
+    { let q3 = q.clone();
+      let reused = catch(move || { let mut big = q3.clone(); let mut pl = big.payload.to_vec(); pl.extend([0xEE; 41]); big.payload = Bytes::from(pl);
+          let mut buf = Vec::with_capacity(1500); big.marshal_into(&mut buf); q3.marshal_into(&mut buf); buf });
+      match reused { Ok(b2) => if b2 != into { f.push(("codec:rtp:marshal_into-keeps-stale-buffer-bytes".into(), format!("{} bytes after a longer packet, {} on a fresh buffer", b2.len(), into.len()))); },
+          Err(p) => f.push(("panic:marshal_into".into(), p)) } }
     // … and for a header the wire cannot carry it must not emit a packet that reads as something else
     // (`marshal` refuses these; the fast path has no `validate` — known finding, one signature per field)
     if !rtp_wf(&q) && !into.is_empty() {
-        let class = if q.header.payload_type > 127 { "pt>127" } else if q.header.csrcs.len() > 15 { "csrc>15" }
-            else if q.header.extension.as_ref().map_or(false, |e| e.data.len() % 4 != 0) { "ext-unaligned" } else { "ext>65535w" };
+        // (class = the violated limit that damages the framing most: CC, then the extension length, then the payload type)
+        let class = if q.header.csrcs.len() > 15 { "csrc>15" }
+            else if q.header.extension.as_ref().map_or(false, |e| e.data.len() % 4 != 0) { "ext-unaligned" }
+            else if q.header.extension.as_ref().map_or(false, |e| e.data.len() / 4 > 65535) { "ext>65535w" } else { "pt>127" };
         match RtpPacket::parse(&into) { Ok(p) if p == q => {}
             Ok(p) => f.push((format!("codec:rtp:marshal_into-masks:{class}"), format!("reads back with a different {}", first_diff(&q, &p)))),
-            Err(e) => f.push((format!("codec:rtp:marshal_into-masks:{class}"), format!("emits an unparsable packet: {}", show_err(&e)))) }
+            // (its own signature: output that does not even parse is a different failure from output that reads back differently)
+            Err(e) => f.push((format!("codec:rtp:marshal_into-masks:{class}:unparsable"), format!("emits an unparsable packet: {}", show_err(&e)))) }
     }
     // RFC 5761 §4: with the marker bit set, payload types 64..=80 put 192..=208 into the second octet — the stack's own
     // demultiplexer (`is_rtcp`) then takes its own RTP output for RTCP (known finding; theorem `is_rtcp_rtp_iff`)
-    if let Ok(b) = &r { if is_rtcp(b) { f.push(("codec:rtp:rtcp-mux-collision:marker+pt64-80".into(), format!("M=1 PT={}", q.header.payload_type))); } }
+    // (the range is written here, not taken from the code: anything outside it is a NEW collision with its own signature)
+    if let Ok(b) = &r { if is_rtcp(b) {
+        let inside = q.header.marker && (64..=80).contains(&q.header.payload_type);
+        f.push((if inside { "codec:rtp:rtcp-mux-collision:marker+pt64-80".to_string() } else { format!("codec:rtp:rtcp-mux-collision:outside-marker+pt64-80:m{}pt{}", q.header.marker as u8, q.header.payload_type) },
+            format!("M={} PT={}", q.header.marker as u8, q.header.payload_type))); } }
     (format!("{} into:{}", res_hex(r), hex(&into)), f)
 }
 
@@ -379,7 +393,9 @@ pub fn s_rtp_parse(run: &mut Run, hx: &str, from_ref: bool) -> (String, Fails) {
     let b2 = b.clone();
     let out = match catch(move || RtpPacket::parse(&b2)) {
         Err(p) => { f.push(("panic:rtp_parse".into(), p.clone())); "panic".into() }
-        Ok(Err(e)) => { if from_ref { f.push(("codec:rtp:parse-of-ref-bytes:rejected".into(), show_err(&e))); } show_err(&e) }
+        Ok(Err(e)) => { if from_ref { f.push(("codec:rtp:parse-of-ref-bytes:rejected".into(), show_err(&e))); }
+            if rfc_must_accept_rtp(&b) { f.push(("codec:rtp:parse-refuses-rfc-valid".into(), show_err(&e))); }
+            show_err(&e) }
         Ok(Ok(p)) => {
             let m = p.marshal();
             // `RtpHeader::parse` on a plain slice (the SRTP path) sees the same header and leaves the body unread
@@ -446,6 +462,11 @@ pub fn s_ext_set(run: &mut Run, e: &str, id: &str, d: &str) -> (String, Fails) {
             f.push(("panic:set_extension".into(), p)); "panic".into() }
         Ok((Err(e), h1)) => {
             if h1 != h0 { f.push(("codec:ext:error-mutates-header".into(), show_ext(&h1.extension))); }
+            // RFC 8285 §4.2: the one-byte form carries ids 1..14 with 1..16 data bytes (L = len-1 = 0..15) — on a header without
+            // extension or with a well-formed one-byte block such an element must be accepted
+            let one_byte_ok = ext.as_ref().map_or(true, |x| x.profile == 0xBEDE && spec_elems(x.profile, &x.data).is_some());
+            if (1..=14).contains(&id) && (1..=16).contains(&data.len()) && one_byte_ok {
+                f.push(("codec:ext:set-refuses-valid-element".into(), format!("id {id}, {} data bytes: {e:?}", data.len()))); }
             format!("err:{}", match e { rustrtc::errors::RtpError::InvalidHeader(m) => m.replace(' ', "_"), o => format!("{o:?}") })
         }
         Ok((Ok(()), h1)) => {
@@ -570,6 +591,49 @@ fn without_padding(b: &[u8]) -> Option<Vec<u8>> {
     if any && off == b.len() { Some(out) } else { None }
 }
 
+/// "The stack parses what an independent implementation serialises": a datagram every packet of which is, by the RFC text,
+/// a complete packet of its type (V=2, length field inside the datagram, valid padding count, body at least the fixed part
+/// plus what its count field announces — RFC 3550 §6.4.1/§6.4.2 allow profile-specific extension words behind the report
+/// blocks) MUST be accepted. `Some(kind of the first packet)` = must accept; `None` = no verdict (SDES grammar, feedback
+/// formats / application feedback the stack does not know, trailing octets).
+fn rfc_must_accept_rtcp(b: &[u8]) -> Option<&'static str> {
+    let (mut off, mut first) = (0, None);
+    if b.len() < 4 { return None; }
+    while off < b.len() {
+        if off + 4 > b.len() || b[off] >> 6 != 2 { return None; }
+        let l = (be16(b, off + 2) as usize + 1) * 4;
+        if off + l > b.len() { return None; }
+        let mut body = l - 4;
+        if b[off] & 0x20 != 0 { let pad = b[off + l - 1] as usize; if pad == 0 || pad > body { return None; } body -= pad; }
+        let (cnt, o) = ((b[off] & 0x1F) as usize, off + 4);
+        let k = match (b[off + 1], cnt) {
+            (200, rc) => { if body < 24 + 24 * rc { return None; } "sr" }
+            (201, rc) => { if body < 4 + 24 * rc { return None; } "rr" }
+            (203, sc) => { if body < 4 * sc { return None; } if body > 4 * sc { let n = b[o + 4 * sc] as usize; if 4 * sc + 1 + n > body { return None; } } "bye" }
+            (205, 1) => { if body < 8 { return None; } "nack" }
+            (205, 15) => { if body < 16 { return None; } "twcc" }
+            (206, 1) => { if body < 8 { return None; } "pli" }
+            (206, 4) => { if body < 8 { return None; } "fir" }
+            (206, 15) => { if body < 16 || &b[o + 8..o + 12] != b"REMB" || body < 16 + 4 * b[o + 12] as usize { return None; } "remb" }
+            (202, _) | (205, _) | (206, _) => return None,
+            _ => "skipped-type",
+        };
+        first.get_or_insert(k);
+        off += l;
+    }
+    first
+}
+
+/// the same for RTP (RFC 3550 §5.1, §5.3.1): V=2, CSRC list, extension and padding inside the datagram
+fn rfc_must_accept_rtp(b: &[u8]) -> bool {
+    if b.len() < 12 || b[0] >> 6 != 2 { return false; }
+    let mut h = 12 + 4 * (b[0] & 0x0F) as usize;
+    if h > b.len() { return false; }
+    if b[0] & 0x10 != 0 { if h + 4 > b.len() { return false; } h += 4 + 4 * be16(b, h + 2) as usize; if h > b.len() { return false; } }
+    if b[0] & 0x20 != 0 { if b.len() == h { return false; } let p = b[b.len() - 1] as usize; if p == 0 || p > b.len() - h { return false; } }
+    true
+}
+
 pub fn s_rtcp_parse(run: &mut Run, hx: &str) -> (String, Fails) {
     let b = unhex(hx);
     let mut f = vec![];
@@ -585,7 +649,12 @@ pub fn s_rtcp_parse(run: &mut Run, hx: &str) -> (String, Fails) {
     }
     let out = match parse_c(&b) {
         Err(p) => { f.push(("panic:rtcp_parse".into(), p)); "panic".into() }
-        Ok(Err(e)) => show_err(&e),
+        Ok(Err(e)) => {
+            // a refusal is judged too: what the RFC text makes a complete compound must be accepted …
+            if let Some(k) = rfc_must_accept_rtcp(&b) { f.push((format!("codec:{k}:parse-refuses-rfc-valid"), show_err(&e))); }
+            // … and so must what the independent implementation accepts as packets of the types the stack knows
+            else if let Ok(texts) = refc::ref_parse_rtcp(&b) { if !texts.is_empty() && texts.iter().all(|t| t.is_some()) { run.count("rtcp_parse_rejected_but_ref_accepts"); } }
+            show_err(&e) }
         Ok(Ok(ps)) => {
             // parse direction, RFC level: walk the datagram by its length fields; every packet of a type the stack knows
             // must have been returned with the fields the RFC diagrams put at their offsets
@@ -803,7 +872,15 @@ pub fn s_rtx_rx(_run: &mut Run, a: &[&str]) -> (String, Fails) {
 
 pub fn s_is_rtcp(_run: &mut Run, hx: &str) -> (String, Fails) {
     let b = unhex(hx);
-    ((is_rtcp(&b) as u8).to_string(), vec![])
+    let r = is_rtcp(&b);
+    let mut f = vec![];
+    // RFC 5761 §4 with this stack's packet types, numbers written here: second octet 200..=207 is RTCP the stack itself emits and
+    // must be recognised; an RTP second octet (M | PT) is taken for RTCP at most for M=1, PT 64..=80 (the known collision)
+    if b.len() >= 2 {
+        if (200..=207).contains(&b[1]) && !r { f.push(("codec:rtcp:is_rtcp-misses-rtcp-type".into(), format!("{}", b[1]))); }
+        if r && !(b[1] & 0x80 != 0 && (64..=80).contains(&(b[1] & 0x7F))) { f.push(("codec:rtcp:is_rtcp-takes-rtp".into(), format!("M={} PT={}", b[1] >> 7, b[1] & 0x7F))); }
+    } else if r { f.push(("codec:rtcp:is_rtcp-takes-rtp".into(), "shorter than two octets".into())); }
+    ((r as u8).to_string(), f)
 }
 
 pub fn s_osn(_run: &mut Run, hx: &str) -> (String, Fails) {
@@ -847,7 +924,10 @@ pub fn exec(run: &mut Run, case: &str) -> (String, String, String, Fails) {
         "apt" => s_apt(run, a[0]),
         "apt_append" => s_apt_append(run, a),
         "rtx_rx" => s_rtx_rx(run, a),
-        "rtx_sdp" => rtxrx::s_rtx_sdp(run, a),
+        "rtx_sdp" => rtxrx::s_rtx_sdp(run, a, rtxrx::SdpPath::NewFromOffer),
+        "rtx_sdp_existing" => rtxrx::s_rtx_sdp(run, a, rtxrx::SdpPath::ExistingFromOffer),
+        "rtx_sdp_answer" => rtxrx::s_rtx_sdp(run, a, rtxrx::SdpPath::AnswerToOurOffer),
+        "rtx_sender" => rtxrx::s_rtx_sender(run, a),
         "rtx_loop" => rtxrx::s_rtx_loop(run, a),
         "aptmap" => s_aptmap(run, a),
         "is_rtcp" => s_is_rtcp(run, a[0]),
@@ -881,12 +961,12 @@ fn emit(run: &mut Run, case: String, nontrivial_hint: bool) {
 pub fn run(args: &Args) {
     let mut run = Run::new("c15", &args.out);
     if let Some(case) = &args.replay {
-        const STREAMS: [&str; 23] = ["rtx_sdp", "rtx_loop", "apt_append", "rtx_rx", "apt", "aptmap", "rtp_marshal", "rtp_parse", "rtp_parse_ref", "ext_get", "ext_set", "rtcp_marshal", "rtcp_parse",
+        const STREAMS: [&str; 26] = ["rtx_sdp", "rtx_sdp_existing", "rtx_sdp_answer", "rtx_sender", "rtx_loop", "apt_append", "rtx_rx", "apt", "aptmap", "rtp_marshal", "rtp_parse", "rtp_parse_ref", "ext_get", "ext_set", "rtcp_marshal", "rtcp_parse",
             "rtcp_parse_ref", "utf8", "rtx_wrap", "rtx_unwrap", "nackbuf", "gap", "is_rtcp", "osn", "rtx_alloc", "-"];
         let first = case.split_whitespace().next().unwrap_or("-");
         // replay files written for a model/implementation disagreement carry the input without its
         // stream name: try every stream the input is well-formed for
-        let cands: Vec<String> = if STREAMS.contains(&first) { vec![case.clone()] } else { STREAMS[..22].iter().map(|s| format!("{s} {case}")).collect() };
+        let cands: Vec<String> = if STREAMS.contains(&first) { vec![case.clone()] } else { STREAMS[..25].iter().map(|s| format!("{s} {case}")).collect() };
         for c in cands {
             let c2 = c.clone();
             let dir = format!("{}/replay", args.out);
@@ -1184,7 +1264,7 @@ pub fn run(args: &Args) {
     }
 
     // the same through the production writers: remote SDP → set_remote_description → receiver state → maybe_unwrap_rtx
-    for _ in 0..150 * scale.min(8) {
+    for _ in 0..260 * scale.min(8) {
         let orig = { let mut p = gens::rtp_packet(&mut rng, true); p.header.payload_type = pk!(rng, [96u8, 96, 100]); p.header.ssrc = pk!(rng, [1111u32, 1111, 2222]); p };
         let rtx_pt = pk!(rng, [97u8, 97, 101, 120]);
         let cfg = rustrtc::rtx::RtxSenderConfig { rtx_ssrc: pk!(rng, [9999u32, 9999, 1111]), rtx_payload_type: pk!(rng, [rtx_pt, rtx_pt, rtx_pt, 96, 98]) };
@@ -1193,8 +1273,11 @@ pub fn run(args: &Args) {
         let ssrcs = pk!(rng, ["1111;9999", "1111;9999", "1111", "-", "9999;1111", "2222;1111"]);
         let pkt = match rng.below(4) { 0 => orig.clone(), 1 => { let mut w = rustrtc::rtx::wrap_rtx_packet(&orig, &cfg, gens::g16(&mut rng)); w.payload = Bytes::from(w.payload[..rng.below(3) as usize].to_vec()); w }
             _ => rustrtc::rtx::wrap_rtx_packet(&orig, &cfg, gens::g16(&mut rng)) };
-        emit(&mut run, format!("rtx_sdp {rtx_pt} {} {fid} {ssrcs} {}", hex(fmtp.as_bytes()), show_pkt(&pkt)), true); run.count("rtx_via_sdp");
+        let stream = pk!(rng, ["rtx_sdp", "rtx_sdp", "rtx_sdp_existing", "rtx_sdp_answer"]);
+        emit(&mut run, format!("{stream} {rtx_pt} {} {fid} {ssrcs} {}", hex(fmtp.as_bytes()), show_pkt(&pkt)), true); run.count(&format!("rtx_via_{stream}"));
     }
+    // the sender side of the same negotiation: add_track + create_offer → RtpSender::set_rtx
+    for (p, r) in [(96u8, 97u8), (96, 101), (100, 120), (111, 97), (96, 127)] { emit(&mut run, format!("rtx_sender {p} {r}"), true); run.count("rtx_sender_negotiation"); }
     // … and through the receiver's run loop (set_rtx_ssrc / set_rtx_apt_map / set_transport, packets into its channel,
     // the SSRC latch): primary packets latch the SSRC that later retransmissions are restored with
     for _ in 0..300 * scale.min(8) {
